@@ -1,5 +1,6 @@
 """Anchors and helpers shared by several property modules (the table DESIGN.md §1.2 refers to)."""
 import mir
+from mir import callee
 from mir import AnchorMissing, callee
 
 # ---- chmux anchors
@@ -30,6 +31,26 @@ CHMUX = "chmux::mux::ChMux"
 def emit_bodies(F):
     """Main coroutine / fn body of each sender-side emit function."""
     return [(p, F.main_body(p)) for p in SENDER_EMIT_FNS]
+
+
+def emit_api_coverage(ck, F):
+    """Anti-vacuity for the per-emit-site rules, independent of how many sites there are: every public sending entry point
+    of chmux::Sender / ChunkSender constructs a SendData / SendPorts event itself or calls (directly) another function of
+    sender.rs that does — so merging duplicated send loops (Sender::send delegating to ChunkSender::send_int) lowers the
+    number of sites without making a rule pass on nothing."""
+    emitters = {}
+    for p in SENDER_EMIT_FNS:
+        b = F.main_body(p)
+        emitters[p] = any(rv["variant"] in ("SendData", "SendPorts") for bb, i, rv in b.aggregates(PORT_EVT))
+    for p in SENDER_EMIT_FNS:
+        b = F.main_body(p)
+        direct = emitters[p]
+        via = [q for q in SENDER_EMIT_FNS if q != p and emitters[q] and
+               any(mir.strip_generics(callee(t) or "") == q for x in F.family(p) for bb, t in x.calls())]
+        ck.expect(direct or bool(via), fn_short(p) + "#reaches-emit-site",
+                  "constructs the event itself" if direct else f"delegates to {fn_short(via[0])}",
+                  f"{p} neither constructs a SendData / SendPorts event nor calls a function of sender.rs that does: the emit-site "
+                  f"rules would pass on nothing", b.loc(0))
 
 
 def fn_short(path):
